@@ -1116,6 +1116,22 @@ def run(check):
                   'Integer, Unicode, Boolean, Integer32, Decimal, ByteArray; after EVERY step the snapshot (kind, type '
                   'name, customized?, 30 resolved attributes, __extends__, ordered fields; depth 4) of EVERY pool class '
                   'is compared with the model; distinct by the whole history')
+    check.extra['proved'] = (
+        'over the class-store model coq/C15/Model.v (spec notions in coq/C15/Spec.v), for ALL stores satisfying inv '
+        '(well-formed + registry of variants complete; checked of the initial pool by evaluating wfb/completeb on every run, '
+        'preserved by every history: C15_invariants_hold), ALL operations and ALL histories: a derivation returns a new class '
+        'and leaves every existing class with the same record, snapshot at every depth, resolved attributes, type name, parent, '
+        'flat field table and verdicts (C15_frame_derivation, C15_frame_history, C15_frame_derivations); an evolution step writes '
+        'only field tables of the class and its registered variants (C15_evolution_records) and every class that does not refer '
+        'to one of them is unchanged (C15_frame_step); the new field reaches every customized variant (C15_propagates); the new '
+        'class carries the requested attributes over the original\'s (C15_fresh_simple/complex, C15_fresh_decimal_keywords); '
+        'customize keeps field names and order and every field type derives from the original one (C15_customize_keeps_fields/'
+        'order); declaration order, parents first, positions of append/insert, odict key order (C15_order_*, C15_odict_keys); '
+        'C15_source_shape ties 17 tokens of the source text (Gen/DeriveSrc.v) to the model')
+    check.extra['observed_only'] = (
+        'independence of PYTHONHASHSEED, the rendered XML Schema (frame and xs:sequence order) and the XML / dict protocol '
+        'output order are properties of code outside the model: they are checked by the direct oracle on the implementation '
+        '(sub-processes under several hash seeds, forked schema renderings), not proved')
     check.trusted = list(lib.COMMON_TRUSTED) + [
         'harness/c15.py: the interpreter that applies operations to real Spyne classes, the snapshot functions, and '
         'the SPEC functions requested()/flat_spec() of the direct oracle',
@@ -1125,7 +1141,10 @@ def run(check):
     check.assumptions = [
         'attribute values are None, bool, int, +-inf, str, list of int, empty set; Python == on them is structural',
         'keyword sets reach only the modelled branches of _s_customize (no parser/sanitizer/pk/fk/values_dict/prot/store_as, '
-        'no nested child_attrs, no Attributes.order, no SelfReference/XmlData/XmlAttribute fields, no sub-classing of a customized class without fields)',
+        'no nested child_attrs, no Attributes.order, no SelfReference/XmlData/XmlAttribute fields, no sub-classing of a customized '
+        'class without fields, no field whose type is the class it is added to or one of its variants, no child_attrs on a '
+        'primitive): the model answers RBad there, the theorems exclude RBad, the generator never produces it',
+        'the walks along base classes use fuel 48 (histories build chains of at most 14 classes); C15_fresh_* are stated for every fuel',
         'an operation that raises leaves every class unchanged (checked by the oracle on the implementation)',
         'namespaces (resolve_namespace) and the anonymous type names filled in while an interface is built are outside the model; '
         'the oracle snapshots __namespace__, the schema rendering runs in forked children',
@@ -1133,8 +1152,11 @@ def run(check):
     for name, exp in (('ARRAY_PREFIX', ''), ('ARRAY_SUFFIX', 'Array'), ('MANDATORY_PREFIX', 'Mandatory'), ('MANDATORY_SUFFIX', '')):
         if getattr(ns.const, name) != exp:
             check.mismatch('constants', 'spyne.const.%s is %r, the model assumes %r' % (name, getattr(ns.const, name), exp))
+    check.regen(['derive'])
     check.check_sources()
     check.prove('Props.C15', THEOREMS)
+    # the tokens of the source that decide the property, regenerated from the tree under check
+    check.prove('Props.C15_src', ['C15_source_shape'])
     n_hist = 150 if tier == 'quick' else 2500
     hists = []
     cases = []
